@@ -133,8 +133,8 @@ theorem dtft_geometric_delayed_on_circle {𝕜 : Type} [NormedField 𝕜] [Compl
 /-! ## 7. Sequences with an origin (`seq`, `nseq.ZT/DFT`, `zseq.IZT`, `Sequence.convolve`) -/
 
 /-- `nseq.ZT` for a sequence whose first index is 0: the terms sum to `Σ x[n] z^{-n}`.
-    (For a first index ≠ 0 the code still uses the list position — finding F27; `seq_zt_origin` is what a
-    repaired version has to satisfy; the oracle judges the real code with `dtftSum`.) -/
+    (This is the list-position form `seqZTPy`, which the code used for every origin before the repair of finding F27;
+    the translator tx_dtseq selects `seqZT` — theorem `seq_zt_origin` — when the source uses `self.n[ni]`.) -/
 theorem seq_zt_partial (vals : List K) (z : K) (hz : z ≠ 0) :
     lsum (seqZTPy vals z) = dtftSum (litVal vals 0) (1 / z) 0 vals.length := by
   rw [dtftSum_lit vals 0 (1 / z) (by simpa using hz)]
@@ -347,7 +347,7 @@ theorem impulse_invariance_samples (dt : K) (l : List (K × K)) :
 /-! ## 10. The DFT bin where the geometric base meets the kernel (`a q = 1`, a an N-th root of unity) -/
 
 /-- at the bin `k0` with `a · ω^{k0} = 1` the defining sum of `wt[n] a^n` is `Σ wt[n]` — the value the "special case"
-    of `termXq` has to carry there (finding F20: the code drops it) -/
+    of `termXq` carries there since the repair of finding F20 (the model branch `numeric ∧ a^N = 1 ∧ a q = 1`) -/
 theorem dft_root_of_unity_bin (wt : ℕ → K) (a q : K) (haq : a * q = 1) (N : ℕ) :
     dftSum (fun n => wt n * a ^ n) q N = dftSum wt 1 N := dftSum_root_bin wt a q haq N
 
